@@ -426,15 +426,17 @@ func (its *jsonPrimitive) createJSONObject(parent jsonType, value interface{}, t
 	fields := reflect.TypeOf(value)
 
 	if target.Kind() == reflect.Map {
-		mapValue := value.(map[string]interface{})
-		keys := make([]string, 0, len(mapValue))
-		for k := range mapValue {
-			keys = append(keys, k)
+		// any map type (map[string]interface{}, map[string]string, ...): the members are named as JSON names them
+		members := make(map[string]reflect.Value, target.Len())
+		keys := make([]string, 0, target.Len())
+		for _, k := range target.MapKeys() {
+			name := fmt.Sprint(k.Interface())
+			members[name] = target.MapIndex(k)
+			keys = append(keys, name)
 		}
 		sort.Strings(keys) // every replica must allocate timestamps in the same order
 		for _, k := range keys {
-			val := reflect.ValueOf(mapValue[k])
-			its.addValueToJSONObject(jo, k, val, ts)
+			its.addValueToJSONObject(jo, k, members[k], ts)
 		}
 	} else { // reflect.Struct
 		for i := 0; i < target.NumField(); i++ {
